@@ -40,6 +40,7 @@ type Loaded struct {
 	Main     *ssa.Package
 	MainPkg  *packages.Package
 	Overlay  map[string][]byte
+	PkgDir   string
 	Entries  []EntryOpts
 	FileHash map[string]string
 }
@@ -134,7 +135,7 @@ func Load(cfg LoadConfig) (*Loaded, error) {
 	}
 	prog, spkgs := ssautil.AllPackages(pkgs, ssa.InstantiateGenerics|ssa.SanityCheckFunctions&0)
 	prog.Build()
-	l := &Loaded{Prog: prog, Pkgs: pkgs, Overlay: overlay, FileHash: map[string]string{}}
+	l := &Loaded{Prog: prog, Pkgs: pkgs, Overlay: overlay, FileHash: map[string]string{}, PkgDir: filepath.Clean(cfg.PkgDir)}
 	l.Main = spkgs[0]
 	l.MainPkg = pkgs[0]
 	if l.Main == nil {
